@@ -85,6 +85,23 @@ theorem pacing_lower_bound (cfg : Cfg) (tbl : List Nat) (ops : List Op) (toi : N
   have hc := tchecked_at post _ pre (hs ▸ timing_checked cfg tbl ops toi)
   exact hc rfl tk ht
 
+/-- Never early, on the value `read` RETURNS (no ghost log in the hypothesis): if, after any history, `read(now)`
+    returns packet `i` of object `t`, then the trace before that call (`past`) contains the Start of the current
+    transfer, and with the tick `tk` the sender computed for it `start + i * tk ≤ now`. -/
+theorem read_pkt_never_early (cfg : Cfg) (tbl : List Nat) (ops : List Op) (now : Nat)
+    (ticks : List (Nat × Nat)) (p t i : Nat) (b : Bool)
+    (hr : (read (run (init cfg tbl) ops) now ticks).2 = Out.pkt p t i b) :
+    ∃ past, (read (run (init cfg tbl) ops) now ticks).1.log = Ev.pkt now p t i b :: past ∧
+      ∀ tk, (TM.run t past).tick = some tk → (TM.run t past).tStart + i * tk ≤ now := by
+  have h1 := read_out_log (run (init cfg tbl) ops) now ticks
+  rw [hr] at h1
+  obtain ⟨new, e, _⟩ := h1
+  have e2 : trace cfg tbl (ops ++ [.read now ticks]) = (read (run (init cfg tbl) ops) now ticks).1.log := by
+    unfold trace run; rw [List.foldl_append]; rfl
+  refine ⟨_, e, ?_⟩
+  intro tk ht
+  exact pacing_lower_bound cfg tbl (ops ++ [.read now ticks]) t [] _ now p i b (by rw [e2, e]; rfl) tk ht
+
 /-- ... in terms of the target: if the tick is the rounded quotient `target / n` (|rounding| ≤ 1 ns per packet,
     asserted per case by the harness), packet i is not earlier than `start + i * target / n` minus i ns. -/
 theorem pacing_lower_bound_target (cfg : Cfg) (tbl : List Nat) (ops : List Op) (toi : Nat)
